@@ -42,6 +42,8 @@ def make_groups(rng):
         i += k
         kind = rng.choice(["plain", "plain", "merge", "single"] if len(ls) == 1 else ["plain", "plain", "merge"])
         name = f"g{gi}"
+        if "ungrouped" not in spec and rng.random() < 0.15:
+            name = "ungrouped"                      # an ordinary user-chosen name (also the library's own key for "no groups")
         gi += 1
         given = list(ls)
         if kind != "single" and rng.random() < 0.25:
